@@ -134,6 +134,15 @@ CHECKS = {
                      "against the reference model, targets/sources disjoint and consistent with the ownership ledger; and each deepest history is replayed with all "
                      "three queries inserted after every step: exit codes, executed scripts, file contents and the final canonical database key must be identical.",
                 note="Reference model trusted; 'known files' taken from the implementation's Files table. -j1."),
+    "C18": dict(engine="E4 (records) + E2 (schedules with the real redo-log follower)", category="model_checking", design_ref="DESIGN.md §4 C18",
+                technique="exhaustive enumeration of record values for format/parse round trip; stateless schedule exploration of builds whose scripts write tagged stderr lines",
+                text="E4: parse(format(m)) == m for every (kind, pid, timestamp, text) over 11 kinds x 4 pids x 19 timestamps (incl. 4th-decimal rounding) x every text of <= 4/5 "
+                     "tokens from an adversarial alphabet (~210k quick / ~930k thorough records); done-text split; prefix recognised only at column 0. "
+                     "E2: world top -> {a -> c, b}, every script writes a whole line, a line in two halves with a scheduling point in between, a 20 kB line and a line after its "
+                     "dependencies; default log mode (real redo-log follower inside the scheduled tree, its polls are scheduling points), -j1 and -j2, every schedule with <= b "
+                     "deviations (quick 1, thorough 2): in the live output and in later `redo-log -r` replays (pretty and raw) each target's lines appear exactly once, in order, "
+                     "byte-complete, under that target's header.",
+                note="A script line that itself parses as a record is in-band signalling by design (thorough scenario). Graph and line shapes as listed."),
 }
 
 NOT_YET = "check not built yet in this session (work in progress; see DESIGN.md §4 for the planned bounded exhaustive check)"
